@@ -846,6 +846,7 @@ def run_check(pid, tier, seed):
         if x.get('property') == pid:
             res.known.append('class=%s witness=%s %s' % (x.get('class'), x.get('witness'), x.get('text')))
     rule = extra.pop('rule', '')
+    res.notes += V.GEN_FALLBACK
     extra['extraction_crosscheck_lines'] = res.vm_lines
     if DIST: extra['input_distribution'] = dict(DIST)
     if tier == 'thorough':
